@@ -1,4 +1,5 @@
 """Matching logical objects"""
+import operator as py_operator
 import warnings
 from abc import ABCMeta, abstractmethod
 from collections import namedtuple
@@ -204,8 +205,8 @@ class Comparison(MatchCriteria):
             raise ValueError(f"Error in Comparison. Cannot compare {required_value} with {parsed_value}. "
                              "Neither should be None.")
 
-        # x.__le__(y) style call
-        return getattr(parsed_value, operator)(required_value)
+        # operator.__le__(x, y) style call (unlike x.__le__(y), this falls back to the reflected operation)
+        return getattr(py_operator, operator)(parsed_value, required_value)
 
 
 class Condition(MatchCriteria):
@@ -418,8 +419,8 @@ class Condition(MatchCriteria):
         if left_value is None or right_value is None:
             raise ComparisonError(f"Error comparing {left_value} and {right_value}. Neither should be None.")
 
-        # x.__le__(y) style call
-        return getattr(left_value, operator)(right_value)
+        # operator.__le__(x, y) style call (unlike x.__le__(y), this falls back to the reflected operation)
+        return getattr(py_operator, operator)(left_value, right_value)
 
 
 class Anded(namedtuple('Anded', ['conditions', 'ors'])):
